@@ -752,6 +752,12 @@ static int _yr_compiler_define_variable(
   if (external->identifier == NULL)
     return ERROR_INVALID_ARGUMENT;
 
+  // Reject a NULL string value before anything is written to the externals
+  // table; bailing out later would leave a half-initialized entry behind.
+  if (external->type == EXTERNAL_VARIABLE_TYPE_STRING &&
+      external->value.s == NULL)
+    return ERROR_INVALID_ARGUMENT;
+
   object = (YR_OBJECT*) yr_hash_table_lookup(
       compiler->objects_table, external->identifier, NULL);
 
